@@ -332,7 +332,7 @@ def jobs_S1(ctx):
         if k in ('ISUB_R', 'IXOR_R', 'IADD_RS', 'IMUL_R', 'IMULH_R', 'ISMULH_R') and (not quick or k in ('IADD_RS', 'IMULH_R')): J.append(dict(kind=k, which='src'))
     return J
 
-LEMMAS['S1'] = dict(jobs=jobs_S1, run=run_S1, units=['ss'], functions=['SuperscalarInstruction::createForSlot', 'create', 'selectSource', 'selectDestination', 'selectRegister', 'toInstr', 'std::vector<int>::push_back'],
+LEMMAS['S1'] = dict(jobs=jobs_S1, run=run_S1, footprint_jobs=lambda ctx: [dict(slot=3), dict(slot=10), dict(kind='IADD_RS', which='elig', reg=0), dict(kind='IMULH_R', which='pick', src=3), dict(kind='IADD_RS', which='src'), dict(kind='IMULH_R', which='src')], units=['ss'], functions=['SuperscalarInstruction::createForSlot', 'create', 'selectSource', 'selectDestination', 'selectRegister', 'toInstr', 'std::vector<int>::push_back'],
     doc='generator operand rules (table 6.1.1): slot -> instruction kinds, rotation count 1..63, reciprocal divisor neither 0 nor 2^k, mod from the generator byte; for every readiness state of the 8 registers: dst,src in r0..r7, dst != src where required, r5 never the destination of IADD_RS, operands ready at the scheduled cycle',
     bound='every slot size; every subset of ready registers (forks), symbolic latencies/last-op info/generator outputs; rejection loops unrolled 3 times (longer runs of rejected values cut: termination of those loops is probabilistic)',
     symbolic='generator bytes/words, register latencies and last-operation info, cycle, fetch type', stubs=['Blake2Generator::getByte/getUInt32 := arbitrary values', 'operator new := ghost heap (no failure)'],
